@@ -20,6 +20,25 @@ fn det_def(seed: u64, i: usize) -> Def {
         0 | 1 => gen::f2_keywords(&mut rng, &name),
         2 => gen::f3_unicode(&mut rng, &name),
         3 => gen::f8_reject(&mut rng, &name).0,
+        4 if rng.chance(1, 2) => {
+            // rejected definition with several different priority conflicts, some found in many automaton states
+            let mut d = Def::new(&name, "multi-conflict", true);
+            let p1 = rng.range(2, 9);
+            let p2 = p1 + rng.range(1, 5);
+            for t in ["[a-z]+", "[a-z]+x?", "[a-z_]+"].iter().take(rng.range(2, 3)) {
+                d.push(Pat::regex(t, 0).prio(p1));
+            }
+            for t in ["[0-9]+", "\\d+", "[0-9]{1,3}"].iter().take(rng.range(2, 3)) {
+                d.push(Pat::regex(t, 0).prio(p2));
+            }
+            d.push(Pat::token("1", 0));
+            d.push(Pat::token("1", 0));
+            if rng.chance(1, 2) {
+                d.push(Pat::token("if", 0).prio(p1));
+            }
+            d.normalize();
+            d
+        }
         4 => gen::f6_loops(&mut rng, &name),
         5 => {
             // rejected definitions with several subpatterns and an undefined reference (diagnostic texts)
